@@ -200,6 +200,18 @@ func runProperty(g *Gen, prop, tier, out string, cfg SolverCfg, t0 time.Time) in
 		if r.Trusted {
 			trusted = append(trusted, r.Unit)
 			assumptions["trusted contract (body not verified): "+r.Unit+" — "+pu.ct.Why] = true
+			// structural guards of a trusted unit (e.g. "recovers") are obligations like any other
+			for _, ob := range r.Obs {
+				seen[baselineName(ob.FullName())] = true
+				total++
+				backends[ob.Backend]++
+				reports = append(reports, obReport{ob.FullName(), ob.Kind, ob.Result, ob.Backend, ob.Ms, trunc(ob.Clause, 160)})
+				if ob.Result == "unsat" {
+					discharged++
+				} else {
+					viols = append(viols, viol{ob, r, ob.Detail})
+				}
+			}
 			continue
 		}
 		if r.Unsupported != "" {
@@ -331,6 +343,20 @@ func runProperty(g *Gen, prop, tier, out string, cfg SolverCfg, t0 time.Time) in
 			}
 		} else if ob.Result != "unsupported" && ob.Result != "missing" {
 			rep["verifier_output"] = "no model: solvers answered " + ob.Result + " (" + ob.Detail + ")"
+		}
+		// a committed witness for this obligation (a concrete failing input found earlier and kept
+		// under /verif/witness) is replayed on the current tree
+		if suffix != "" && v.unit != nil && v.unit.ct != nil {
+			wf := filepath.Join(cfgDir, "witness", mangle(full)+"_test.go")
+			if _, err := os.Stat(wf); err == nil {
+				outp, ran := runReplayTest(g.repo, v.unit.ct.Pkg, wf)
+				rr := ReplayResult{Status: "not-reproduced", TestFile: wf, Output: trunc2(outp, 6000), Reason: "committed witness"}
+				if ran && (strings.Contains(outp, "REPLAY the call panicked") || strings.Contains(outp, "REPLAY clause violated")) {
+					rr.Status = "confirmed"
+					suffix = ""
+				}
+				rep["replay"] = rr
+			}
 		}
 		data, _ := json.MarshalIndent(rep, "", " ")
 		os.WriteFile(file, data, 0o644)
@@ -466,6 +492,9 @@ func baselineKind(full string) bool {
 		return false
 	}
 	n := full[i+1:]
+	if strings.HasPrefix(n, "guard:") {
+		return true
+	}
 	if strings.HasPrefix(n, "at:") && !strings.HasPrefix(n, "at:lemma") {
 		return true // property-carrying anchored assert (proof hints are labelled lemma-*)
 	}
